@@ -1,3 +1,3 @@
 SPECIFICATION Spec
-CONSTANTS Lines <- Id7  Prog <- ProgLoopSub  BpSets <- Bps2  MaxReq = 3  Deviations <- NoDev  Fuel = 40
+CONSTANTS LibLines <- NoLib  Lines <- Id7  Prog <- ProgLoopSub  BpSets <- Bps2  MaxReq = 3  Deviations <- NoDev  Fuel = 40
 INVARIANT NeverProbeArmed
